@@ -605,17 +605,46 @@ Section Symbolic.
   Qed.
 
   (* (2) the honest three-message run: equal keys, equal tokens, one connect *)
+  Lemma step_client_hello_ok : forall (s : hstate) cpub salt tok rest,
+    c_server (h_conn s) = true -> h_rand s = (salt, tok) :: rest ->
+    let p := {| sp_pub := pub (h_priv s); sp_salt := salt; sp_token := tok |} in
+    hs_step s CLIENT_HELLO (MClientHello cpub (h_version s) true) =
+    (send_type ((h_conn s) <| c_token := tok |> <| c_key := Some (kdf (dh (h_priv s) cpub) salt) |>
+                  <| c_status := CONNECTING |>)
+       SERVER_HELLO (ser_shello (pub (h_root s)) p (sign (h_root s) p)) RNone INone, []).
+  Proof.
+    intros s cpub salt tok rest Sv Hr p. unfold Handshake.hs_step, Handshake.oracle_of, recv_handshake.
+    rewrite Sv, Hr. cbn [negb hd o_parse o_version_ok o_token o_key o_reply]. rewrite !Z.eqb_refl. reflexivity.
+  Qed.
+
+  Lemma step_server_hello_ok : forall (s : hstate) rp p sg,
+    c_server (h_conn s) = false -> verify (check_key s rp) sg p = true ->
+    hs_step s SERVER_HELLO (MServerHello rp p sg) =
+    (let c := send_type ((h_conn s) <| c_token := sp_token p |>
+                           <| c_key := Some (kdf (dh (h_priv s) (sp_pub p)) (sp_salt p)) |>)
+                CHALLENGE_RESP (ser_chal (sp_token p)) RNone IChallenge in
+     (c <| c_status := CONNECTED |> <| c_hello_sent := 0 |>, if c_conn_cb c then [OConnCb true] else [])).
+  Proof.
+    intros s rp p sg Sv V. unfold Handshake.hs_step, Handshake.oracle_of, recv_handshake.
+    rewrite Sv, V. reflexivity.
+  Qed.
+
+  Lemma step_challenge_ok : forall (s : hstate) tok,
+    c_server (h_conn s) = true -> temp_token s = Some tok ->
+    hs_step s CHALLENGE_RESP (MChallenge tok) = ((h_conn s) <| c_status := CONNECTED |>, [OHandlerConnect]).
+  Proof.
+    intros s tok Sv T. unfold Handshake.hs_step, Handshake.oracle_of, recv_handshake.
+    rewrite Sv. cbn [negb o_parse o_temp_token o_token]. rewrite T. cbn [Z.eqb negb]. rewrite Z.eqb_refl. reflexivity.
+  Qed.
+
   Theorem honest_agree_proof : forall a b root salt tok rest pinned,
     pinned = None \/ pinned = Some (pub root) ->
     let C0 := client0 SIG a pinned in
     let S0 := server0 SIG b root ((salt, tok) :: rest) in
-    (* 1: the server-side connection receives ClientHello(pub a, version 1, padding) *)
     let '(sc1, o1) := hs_step S0 CLIENT_HELLO (MClientHello (pub a) 1 true) in
     let S1 := S0 <| h_conn := sc1 |> in
     let p := {| sp_pub := pub b; sp_salt := salt; sp_token := tok |} in
-    (* 2: the client receives the ServerHello the server queued *)
     let '(cc1, o2) := hs_step C0 SERVER_HELLO (MServerHello (pub root) p (sign root p)) in
-    (* 3: the server receives the ChallengeResp the client queued *)
     let '(sc2, o3) := hs_step S1 CHALLENGE_RESP (MChallenge (c_token cc1)) in
     map m_payload (c_outgoing sc1) = [ser_shello (pub root) p (sign root p)] /\
     map m_payload (c_outgoing cc1) = [ser_chal tok] /\
@@ -623,12 +652,23 @@ Section Symbolic.
     c_token cc1 = tok /\ c_token sc2 = tok /\
     c_status cc1 = CONNECTED /\ c_status sc2 = CONNECTED /\ o3 = [OHandlerConnect].
   Proof.
-    intros a b root salt tok rest pinned Pin.
-    pose proof (proj2 (verify_sign root (sign root {| sp_pub := pub b; sp_salt := salt; sp_token := tok |})
-                                   {| sp_pub := pub b; sp_salt := salt; sp_token := tok |}) eq_refl) as V.
-    destruct Pin as [-> | ->]; cbn zeta;
-      unfold Handshake.hs_step, Handshake.oracle_of, recv_handshake, check_key; cbn;
-      rewrite V; cbn; rewrite Z.eqb_refl; cbn; rewrite (dh_comm a b); repeat split; reflexivity.
+    intros a b root salt tok rest pinned Pin C0 S0.
+    pose proof (step_client_hello_ok S0 (pub a) salt tok rest eq_refl eq_refl) as E1.
+    change (h_version S0) with 1 in E1. cbv zeta in E1. rewrite E1. clear E1. cbv beta iota zeta.
+    set (sc1 := send_type _ SERVER_HELLO _ RNone INone).
+    set (p := {| sp_pub := pub b; sp_salt := salt; sp_token := tok |}).
+    assert (V : verify (check_key C0 (pub root)) (sign root p) p = true).
+    { unfold check_key, C0, client0. cbn [h_pinned]. destruct Pin as [-> | ->]; apply verify_sign; reflexivity. }
+    rewrite (step_server_hello_ok C0 (pub root) p (sign root p) eq_refl V). cbv beta iota zeta.
+    set (cc := send_type _ CHALLENGE_RESP _ RNone IChallenge).
+    assert (Tk : c_token (cc <| c_status := CONNECTED |> <| c_hello_sent := 0 |>) = tok) by reflexivity.
+    rewrite Tk.
+    assert (Sv1 : c_server (h_conn (S0 <| h_conn := sc1 |>)) = true) by (subst sc1; reflexivity).
+    assert (Tt1 : temp_token (S0 <| h_conn := sc1 |>) = Some tok) by (subst sc1; reflexivity).
+    rewrite (step_challenge_ok (S0 <| h_conn := sc1 |>) tok Sv1 Tt1). cbv beta iota zeta.
+    subst cc sc1 p C0 S0. cbn [client0 server0 h_conn h_priv h_root].
+    cbn [sp_pub sp_salt sp_token]. rewrite (dh_comm a b).
+    repeat split.
   Qed.
 
   (* every symbolic event is the Conn.v event ev_of computes, so Conn-level theorems transfer *)
@@ -648,7 +688,7 @@ Section Symbolic.
         * inversion H; subst; reflexivity.
       + cbn in H |- *. inversion H; subst; reflexivity.
       + destruct (hrecv (s <| h_conn := c0 |>) tm d) as [s1 o1] eqn:R.
-        apply hrecv_is_recv_proof in R. cbn [h_conn] in R. cbn. rewrite R.
+        apply hrecv_is_recv_proof in R. change (h_conn (s <| h_conn := c0 |>)) with c0 in R. rewrite R.
         destruct (raised _); [inversion H; subst; reflexivity|].
         destruct (_ >? _).
         * destruct (build_packet e (h_conn s1) tm) as [c2 pk]. destruct (check_timeout false c2 tm) as [c3 o3].
@@ -677,4 +717,52 @@ Section Symbolic.
   Proof.
     intros. split; apply hrun_inv; apply not_connected_inv; cbn; discriminate.
   Qed.
+
+  (* in ANY state of a client, one SERVER_HELLO message either leaves key and token alone or takes
+     both from a hello that verifies under the configured key *)
+  Theorem client_key_only_from_verified_hello_proof : forall (s : hstate) m c' o,
+    c_server (h_conn s) = false -> hs_step s SERVER_HELLO m = (c', o) ->
+    (c_key c' = c_key (h_conn s) /\ c_token c' = c_token (h_conn s) /\
+     (c_status c' = c_status (h_conn s) \/ c_status c' = DISCONNECTED)) \/
+    (exists rp p sg, m = MServerHello rp p sg /\ verify (check_key s rp) sg p = true /\
+       c_key c' = Some (kdf (dh (h_priv s) (sp_pub p)) (sp_salt p)) /\ c_token c' = sp_token p /\
+       c_status c' = CONNECTED).
+  Proof.
+    intros s m c' o Sv H. unfold Handshake.hs_step, Handshake.oracle_of, recv_handshake in H. rewrite Sv in H.
+    destruct m as [cp v pd|rp p sg|t|code]; cbn in H.
+    - inversion H; subst. left; auto.
+    - destruct (verify (check_key s rp) sg p) eqn:V; cbn in H; inversion H; subst; cbn.
+      + right. exists rp, p, sg. repeat split; auto.
+      + left; auto.
+    - inversion H; subst. left; auto.
+    - pose proof (fail_oracle_nonzero code) as NZ. unfold fail_oracle in *. cbn in *.
+      destruct ((if code =? 0 then 9 else code) =? 6); [inversion H; subst; cbn; left; auto|].
+      destruct (negb ((if code =? 0 then 9 else code) =? 0)) eqn:E0; [|lia].
+      inversion H; subst. left; auto.
+  Qed.
 End Symbolic.
+
+(* ---------- part 6: AEAD view and consistency of the hypotheses ---------- *)
+Section Aead.
+  Variable CT : Type.
+  Variable seal : Z -> header -> list byte -> CT.
+  Variable open : Z -> header -> CT -> option (list byte).
+  Hypothesis open_seal : forall k h p, open k h (seal k h p) = Some p.
+  Hypothesis open_integrity : forall k h c p, open k h c = Some p -> c = seal k h p.
+
+  (* a datagram whose body is what open makes of a ciphertext is accepted by a key holder only if
+     the ciphertext was produced by seal under that key with that header *)
+  Theorem authentic_means_sealed_proof : forall k h c ms,
+    open_dgram (Some k) {| d_hdr := h; d_body := body_view CT open k h c |} = Ok ms ->
+    exists p, c = seal k h p /\ decode_msgs (h_type h) (h_count h) p = Ok ms.
+  Proof.
+    intros k h c ms H. unfold open_dgram, body_view in H. cbn in H.
+    destruct (open k h c) as [p|] eqn:O; cbn in H; [|discriminate].
+    destruct ((k =? k) && header_eqb h h && (h_len h =? len p)); cbn in H; [|discriminate].
+    exists p. split; auto.
+  Qed.
+
+  Theorem sealed_is_authentic_proof : forall k h p,
+    h_len h = len p -> authentic k {| d_hdr := h; d_body := body_view CT open k h (seal k h p) |}.
+  Proof. intros k h p L. unfold authentic, body_view. cbn. rewrite open_seal. exists p. auto. Qed.
+End Aead.
